@@ -73,6 +73,18 @@ fn sink_tags(run: &crate::build::BuildRun, case: &BuildCase) -> Vec<(&'static st
         ("sink.inflight_flip", f.flip),
         ("probe.short_write_split_buffer_ge_256", f.split_big),
     ];
+    let errs = f.intr + f.err + f.flush_err + f.crash;
+    if errs > 0 {
+        t.push((
+            match case.plan.err_repr {
+                crate::sink::ErrRepr::Message => "sink.errors_built_with_text_payload",
+                crate::sink::ErrRepr::Simple => "sink.errors_built_from_bare_kind",
+                crate::sink::ErrRepr::OsCode => "sink.errors_built_from_errno",
+                crate::sink::ErrRepr::FstPayload => "sink.errors_carrying_an_fst_error_payload",
+            },
+            errs,
+        ));
+    }
     if case.bufcap.is_some() {
         t.push(("layer.bufwriter", 1));
     }
@@ -155,6 +167,18 @@ pub fn exec(prop: &str, case: &Case) -> Outcome {
                 detail: serde_json::json!({"target_delta": dc.target, "measured_delta": run.intr, "file_bytes": run.bytes}),
             }
         }
+        ("C15", Case::Epoch(ec)) => {
+            let run = crate::multi::run_epoch(ec);
+            Outcome {
+                digest: run.digest,
+                nontrivial: true,
+                violation: run.violation,
+                explicit: case.clone(),
+                tags: vec![("probe.c15_same_sequence_before_and_after_many_builders", 1), ("c15.empty_builders_in_between", ec.between)],
+                steps: ec.between + 2,
+                detail: serde_json::Value::Null,
+            }
+        }
         ("C06", Case::FromIter(fc)) => {
             let run = crate::multi::run_from_iter(fc);
             let violation = crate::multi::check_from_iter(fc, &run);
@@ -165,6 +189,35 @@ pub fn exec(prop: &str, case: &Case) -> Outcome {
                 violation,
                 explicit: case.clone(),
                 tags: vec![("history.rejected_calls", rejected as u64), ("history.from_iter_calls", 1)],
+                steps: 1 + run.pulled as u64,
+                detail: serde_json::Value::Null,
+            }
+        }
+        ("C08", Case::FromIter(fc)) => {
+            // an FST obtained through an entry point that drives a builder
+            // on the caller's behalf (from_iter, Default): A(i) all the same
+            let run = crate::multi::run_from_iter(fc);
+            let violation = match (&run.result, &run.bytes) {
+                (crate::front::Res::Panic(m), _) => Some(Violation { oracle: "C08.panic".into(), observed: m.clone() }),
+                (_, Some(bytes)) => check_footer("C08", bytes).or_else(|| unaligned_verify("C08", bytes)).or_else(|| {
+                    let p = crate::restart::probe(bytes);
+                    if p.verify_ok != Some(true) {
+                        Some(Violation {
+                            oracle: "C08.A1.fresh_build_does_not_verify".into(),
+                            observed: format!("{}: {} {}", fc.entry.name(), p.open_err, p.verify_err),
+                        })
+                    } else {
+                        None
+                    }
+                }),
+                _ => None,
+            };
+            Outcome {
+                digest: run.digest,
+                nontrivial: true,
+                violation,
+                explicit: case.clone(),
+                tags: vec![("entry.from_iter_or_default_artifacts", 1)],
                 steps: 1 + run.pulled as u64,
                 detail: serde_json::Value::Null,
             }
